@@ -132,7 +132,13 @@ def make_filler(fn):
         def getter(name):
             def g(it_, args, this):
                 key = name + '(' + ','.join(str(a) for a in args) + ')'
-                return VALUES.setdefault(key, None) or VALUES.__setitem__(key, fresh(key)) or VALUES[key]
+                if VALUES.get(key) is None:
+                    base = VALUES.get(name + '()')
+                    if args and isinstance(base, Mat) and len(args) == 1 and isinstance(args[0], int):
+                        VALUES[key] = base.get(args[0])          # get_X(i) is the i-th entry of get_X()
+                    else:
+                        VALUES[key] = fresh(key)
+                return VALUES[key]
             return g
         VALUES = {}
         def fresh(key):
@@ -158,13 +164,20 @@ def make_filler(fn):
         it.stubs['SM::get_mh'] = lambda it_, a, t: VALUES.setdefault('get_sm().get_mh()', z3.Real('get_sm().get_mh()'))
         it.stubs['SM::get_ckm'] = lambda it_, a, t: VALUES.setdefault('get_sm().get_ckm()', fresh('get_sm().get_ckm()'))
         model = Obj('THDM', {})
-        sym, r, _ = single(it, lambda: it.call(fn, [model], file=file))
+        ps = it.run_paths(lambda: it.call(fn, [model], file=file))
         ctx.merge_rules(it)
-        ctx.record('kernel_called_once', PROVED if len(got) == 1 else FAILED, 'B', 0, '%d calls of %s' % (len(got), callee))
-        ctx.record('returns_kernel_result', PROVED if (is_sym(r) and r.eq(ret)) else FAILED, 'B', 0, 'returned %s' % (r,))
+        # the filler is straight-line code: a branch on model data means that what the kernel receives depends on the point (every path must still satisfy the contract)
+        ok_paths = [p for p in ps if p[2] is None]
+        ctx.record('kernel_called_once', PROVED if len(got) == len(ok_paths) and ok_paths else FAILED, 'B', 0, '%d calls of %s on %d path(s)' % (len(got), callee, len(ps)))
+        ctx.record('returns_kernel_result', PROVED if ok_paths and all(is_sym(p[1]) and p[1].eq(ret) for p in ok_paths) else FAILED, 'B', 0, 'returned %s' % ([str(p[1]) for p in ps],))
         if not got:
             return
-        pars = got[0]
+        for pk, pars in enumerate(got):
+            _check_fields(ctx, pars, table, VALUES, '' if len(got) == 1 else 'path%d.' % pk)
+    return ob
+
+def _check_fields(ctx, pars, table, VALUES, pfx):
+    if True:
         from contracts.c09 import eq_values
         for fld, expr in sorted(table.items()):
             key = expr if '(' in expr and not expr.endswith('()') else expr
@@ -173,16 +186,15 @@ def make_filler(fn):
             if want is None:
                 want = VALUES.get(expr.replace('()', '()'))
             if want is None:
-                ctx.record('field.' + fld, FAILED, 'B', 0, 'getter %s was never called' % expr)
+                ctx.record(pfx + 'field.' + fld, FAILED, 'B', 0, 'getter %s was never called' % expr)
                 continue
             try:
                 ok = z3.is_true(z3.simplify(eq_values(pars.f[fld], want)))
             except Exception as e:
                 ok = False
-            ctx.record('field.' + fld, PROVED if ok else FAILED, 'B', 0, '%s == model.%s' % (fld, expr))
+            ctx.record(pfx + 'field.' + fld, PROVED if ok else FAILED, 'B', 0, '%s == model.%s' % (fld, expr))
         extra = set(pars.f) - set(table)
-        ctx.record('no_unset_field', PROVED if not extra else FAILED, 'B', 0, 'fields not covered by the table: %s' % sorted(extra))
-    return ob
+        ctx.record(pfx + 'no_unset_field', PROVED if not extra else FAILED, 'B', 0, 'fields not covered by the table: %s' % sorted(extra))
 
 for _fn in FILLERS:
     make_filler(_fn)
